@@ -82,6 +82,8 @@ func runC05(c *Ctx) {
 	s.checkSkippedFindable(c, "skipped-is-findable")
 	s.checkLatchesReleased(c, "latches-released-on-terminal")
 	s.checkTriggerTable(c, "exit-on-skipped-table", "trigger-arguments")
+	s.checkExitCodeProvenance(c, "exitcode-provenance")
+	s.checkProberLifecycle(c, "prober-lifecycle")
 }
 
 // checkNonzeroCodeForNonRun (C05, C09): decision table of the terminal
